@@ -28,6 +28,12 @@ Deciding monitor M (public boundary):
                earlier in the process must still be).  A per-shard pool of 36
                initial strings is drawn from again and again, and one long-lived
                object per pool string is watched across histories.
+Round-4 classes (same oracle, no new keys): VERY LARGE EPOCHS (2**31-1, 2**31, 2**32, 2**63, 20- and 40-digit,
+zero-padded) in constructor strings, as initial strings of histories and as assigned values of every magic attribute;
+and full_version assignments whose value consists of version characters only but is MUST-REJECT (colon without numeric
+epoch, colon after the last hyphen, nothing after the epoch), i.e. refused by a check that comes after the
+character/shape check.  Whether an epoch > INT_MAX must be accepted is UNSPECIFIED (local classify() adds the verdict
+'big-epoch': never judged accept/reject); atomicity and self-consistency are judged in full.
 Auxiliary monitor K7 (contract on BaseVersion.__setattr__, attached with
 vp.contracts.wrap, normal and exceptional exit): after a normal exit
 full_version == recompose(epoch, upstream_version, debian_revision); after an
@@ -65,7 +71,20 @@ RULE = ('Constructor cases: ALL strings of length <= 4 (quick) / <= 5 (thorough)
         'version whose upstream version contains a colon (with epoch) and/or a hyphen (with revision), the text before '
         'the first colon being all-digit or not, and are made of epoch=None / debian_revision=None / debian_version=None '
         '/ revision="" assignments interleaved with re-adding assignments.  One eighth of the histories run before the '
-        'constructor enumeration, the rest after it.')
+        'constructor enumeration, the rest after it.  '
+        'Very large epochs: 22 listed epochs (2147483647, 2147483648, 2**32-1, 2**32, 2**63-1, 2**63, 2**64-1, 2**64, '
+        '20-digit, 40-digit, zero-padded 11/20/40-digit spellings) in ALL 35 constructor templates (valid, unspecified and '
+        'invalid surroundings: "E:1", "E:1-a:b", "E:", "E:1 LF", "1:E", ...) plus 4e3 / 2e5 seeded valid versions with a '
+        'random 10..100-digit epoch, half of them hostile-mutated.  Atomicity histories (6e3 / 3e5, in ADDITION to the '
+        'histories above, one eighth before the enumeration): the initial version has a very large epoch (40%), or epoch '
+        'AND revision set (45%), or is any valid version; <= 6 assignments drawn from: full_version = a string of version '
+        'characters only that is MUST-REJECT because of its colons / empty upstream, 20% of them with a very large epoch '
+        '(30%); full_version = valid version with a very large epoch or a large-epoch template (15%); epoch = very large '
+        'epoch as str or int (17%); upstream_version = value whose head re-splits into a very large epoch, or a huge '
+        'number (8%); debian_revision / debian_version / upstream_version = ordinary valid and invalid values, which hit '
+        'objects that carry a very large epoch (16%); small / invalid / None epoch (6%); any ordinary assignment (8%); '
+        'with copy constructions (30%) and fresh constructions as above.  Counters bigepoch:* and late:* are decided '
+        'from the model and the assigned value, never from what the library did.')
 ASSUMPTIONS = [
     'vp.models.dpkgver.classify/split is the reference for Debian Policy 5.6.12 syntax (cross-checked against the dpkg binary on a sample in the thorough tier); the Policy "should start with a digit" recommendation is not demanded',
     'strings whose last-hyphen split leaves an empty side ("1-", "-1", "0:-1") are UNSPECIFIED: neither acceptance nor rejection nor their decomposition is judged',
@@ -77,6 +96,10 @@ ASSUMPTIONS = [
     'fresh constructions inside a history are reported under history-dependent-construction/<constructor key>: the same string was pushed through the same library earlier in the same history (as the initial string, as an accepted assignment result whose decomposition was verified, or as a recomposition the library rejected), so a different outcome now is dependence on process history, whatever the constructor does in isolation',
     'witnesses under other-object-changed/*, history-dependent-construction/*, copy-differs-from-original, repeated-construction-differs are shrunk greedily (steps are dropped while the mechanism persists) and, for pool histories, carry a "prelude" (the last 4 pool histories of this shard that started from or ended on the same pool string), which --replay plays unjudged first; a violation under an ORDINARY key that is only a consequence of state left behind by earlier cases of the same process may not reproduce from its own replay file (the leak keys of the same run do)',
     'epoch=None is counted as "removal with colon in upstream" only when the model epoch is set and the model upstream contains ":"; debian_revision/debian_version = None or "" as "removal with hyphen in upstream" only when the model revision is set and the model upstream contains "-"; the outcome is judged by the ordinary assignment oracle (valid recomposition with re-derived components, or ValueError + unchanged)',
+    'very large epochs: a string that is MUST-ACCEPT by syntax but whose epoch is > 2147483647, or is spelt with more than 10 digits (zero-padded), has the verdict "big-epoch": Policy says "unsigned integer", dpkg refuses > INT_MAX, so neither its acceptance nor its refusal is judged - not by the constructor, not by an assignment (an assignment may raise ValueError although its recomposition is valid anyway), not by a copy construction (ValueError from a copy of a big-epoch object = copy skipped, the original must be unchanged), not in a fresh construction (a big-epoch string accepted earlier in the history may be refused later and vice versa); epoch == 2147483647 exactly is MUST-ACCEPT; a string with a very large epoch that is MUST-REJECT or UNSPECIFIED for another reason keeps that verdict',
+    'what IS judged with very large epochs: if the constructor / assignment / copy takes the string, str() and full_version must equal it and the components must be its Policy decomposition (the epoch text unchanged, no normalisation); every assignment that raises ValueError must leave all six public observables unchanged (also when the object already carries a very large epoch, also for full_version); a history whose big-epoch initial string is refused by the constructor is skipped (counted bigepoch:hist-init-refused)',
+    'late-refused full_version values are defined independently of the library regex: non-empty, only characters of [A-Za-z0-9.+~:-], and MUST-REJECT by the reference classifier (reasons colon-without-numeric-epoch, colon-after-last-hyphen, empty-upstream); the ordinary assignment oracle judges them (ValueError + unchanged, or a named accepts-* mechanism)',
+    'floors on bigepoch:* / late:* counters use only outcome-independent counters, so a correct library that refuses every epoch > INT_MAX atomically is HELD, not INCONCLUSIVE; the outcome-dependent floor bigepoch:assign-on-big-object is applied (in conclusive()) only when the library accepted at least half of the big-epoch constructor strings',
     'Version is NativeVersion (python-apt absent); BaseVersion is exercised as well; the class exercised is recorded in coverage.version_class',
 ]
 ANCHORS = ['debian.debian_support:BaseVersion._set_full_version',
@@ -95,40 +118,79 @@ SMALL_ALPHABET = ['1', 'a', ':', '-']
 SMALL_LEN = {'quick': (5, 7), 'thorough': (6, 8)}
 RANDOM_STRINGS = {'quick': 80000, 'thorough': 4000000}
 HISTORIES = {'quick': 20000, 'thorough': 1200000}
+ATOMIC_HISTORIES = {'quick': 6000, 'thorough': 300000}      # in addition to HISTORIES
+BIG_RANDOM_STRINGS = {'quick': 4000, 'thorough': 200000}    # in addition to RANDOM_STRINGS
 DPKG_SAMPLE = 300
 
 # about 50% of what the unchanged tree measures (minimum over VERIF_SEED 0..3); the copy:/isolation:/fresh:/remove:/hist: floors
-# make a run that never exercises state between objects or component removals INCONCLUSIVE rather than held
-FLOORS = {'quick': {'nontrivial': 80000,
-                    'monitors': {'M.construct': 83000, 'M.assign': 31000, 'M.rollback': 12000, 'K7': 175000, 'K7.raise': 22000,
-                                 'M.copy': 4300, 'M.fresh': 40000, 'M.isolation': 107000},
-                    'counters': {'construct:accept/accepted': 17000, 'construct:reject/rejected': 63000,
-                                 'assign:ok': 19500, 'assign:raised': 12000,
-                                 'hist:init-from-pool': 5400, 'copy:mutate-copy': 2100, 'copy:mutate-original': 2100,
-                                 'isolation:copy-of-assigned-object': 2500, 'isolation:original-of-assigned-copy': 2500,
-                                 'isolation:sibling-from-same-string': 17000,
+# make a run that never exercises state between objects or component removals INCONCLUSIVE rather than held; the bigepoch: and
+# late: floors do the same for very large epochs and late-refused full_version values (outcome-independent counters only; the
+# outcome-dependent ones are in conclusive())
+FLOORS = {'quick': {'nontrivial': 86000,
+                    'monitors': {'M.construct': 85000, 'M.assign': 42000, 'M.rollback': 16500, 'K7': 215000, 'K7.raise': 28000,
+                                 'M.copy': 5200, 'M.fresh': 53000, 'M.isolation': 129000},
+                    'counters': {'construct:accept/accepted': 18000, 'construct:reject/rejected': 64000,
+                                 'assign:ok': 25500, 'assign:raised': 16500,
+                                 'hist:init-from-pool': 5400, 'copy:mutate-copy': 2600, 'copy:mutate-original': 2600,
+                                 'isolation:copy-of-assigned-object': 3000, 'isolation:original-of-assigned-copy': 3000,
+                                 'isolation:sibling-from-same-string': 23000,
                                  'isolation:long-lived-object-from-same-string': 9600,
-                                 'fresh:initial-string-after-change': 9900, 'fresh:current-string': 9300,
-                                 'fresh:earlier-accepted-string': 7200, 'fresh:earlier-rejected-string': 11000,
+                                 'fresh:initial-string-after-change': 12900, 'fresh:current-string': 12200,
+                                 'fresh:earlier-accepted-string': 7800, 'fresh:earlier-rejected-string': 15600,
                                  'remove:epoch-with-colon-in-upstream:ok': 340,
                                  'remove:epoch-with-colon-in-upstream:raised': 1000,
                                  'remove:revision-with-hyphen-in-upstream:ok': 1000,
-                                 'remove:revision-with-hyphen-in-upstream:raised': 170}},
-          'thorough': {'nontrivial': 2000000,
-                       'monitors': {'M.construct': 2300000, 'M.assign': 1800000, 'M.rollback': 700000, 'K7': 9000000, 'K7.raise': 1300000,
-                                    'M.copy': 250000, 'M.fresh': 2400000, 'M.isolation': 6400000},
-                       'counters': {'construct:accept/accepted': 700000, 'construct:reject/rejected': 1300000,
-                                    'assign:ok': 1100000, 'assign:raised': 700000,
-                                    'hist:init-from-pool': 320000, 'copy:mutate-copy': 130000, 'copy:mutate-original': 130000,
-                                    'isolation:copy-of-assigned-object': 150000, 'isolation:original-of-assigned-copy': 150000,
-                                    'isolation:sibling-from-same-string': 1000000,
+                                 'remove:revision-with-hyphen-in-upstream:raised': 170,
+                                 'bigepoch:construct': 1700, 'bigepoch:hist-init': 1180,
+                                 'bigepoch:assign:epoch': 1600, 'bigepoch:assign:full_version': 1700,
+                                 'late:full_version:colon-after-last-hyphen': 1350,
+                                 'late:full_version:colon-without-numeric-epoch': 1800,
+                                 'late:full_version:empty-upstream': 330,
+                                 'late:full_version:on-object-with-epoch-and-revision': 2350}},
+          'thorough': {'nontrivial': 2300000,
+                       'monitors': {'M.construct': 2400000, 'M.assign': 2400000, 'M.rollback': 950000, 'K7': 11800000, 'K7.raise': 1600000,
+                                    'M.copy': 300000, 'M.fresh': 3000000, 'M.isolation': 7500000},
+                       'counters': {'construct:accept/accepted': 780000, 'construct:reject/rejected': 1500000,
+                                    'assign:ok': 1490000, 'assign:raised': 950000,
+                                    'hist:init-from-pool': 320000, 'copy:mutate-copy': 150000, 'copy:mutate-original': 150000,
+                                    'isolation:copy-of-assigned-object': 175000, 'isolation:original-of-assigned-copy': 175000,
+                                    'isolation:sibling-from-same-string': 1300000,
                                     'isolation:long-lived-object-from-same-string': 570000,
-                                    'fresh:initial-string-after-change': 600000, 'fresh:current-string': 560000,
-                                    'fresh:earlier-accepted-string': 430000, 'fresh:earlier-rejected-string': 670000,
-                                    'remove:epoch-with-colon-in-upstream:ok': 20000,
-                                    'remove:epoch-with-colon-in-upstream:raised': 55000,
-                                    'remove:revision-with-hyphen-in-upstream:ok': 50000,
-                                    'remove:revision-with-hyphen-in-upstream:raised': 9000}}}
+                                    'fresh:initial-string-after-change': 750000, 'fresh:current-string': 700000,
+                                    'fresh:earlier-accepted-string': 470000, 'fresh:earlier-rejected-string': 890000,
+                                    'remove:epoch-with-colon-in-upstream:ok': 26000,
+                                    'remove:epoch-with-colon-in-upstream:raised': 68000,
+                                    'remove:revision-with-hyphen-in-upstream:ok': 63000,
+                                    'remove:revision-with-hyphen-in-upstream:raised': 12000,
+                                    'bigepoch:construct': 76000, 'bigepoch:hist-init': 59000,
+                                    'bigepoch:assign:epoch': 84000, 'bigepoch:assign:full_version': 85000,
+                                    'late:full_version:colon-after-last-hyphen': 70000,
+                                    'late:full_version:colon-without-numeric-epoch': 95000,
+                                    'late:full_version:empty-upstream': 16000,
+                                    'late:full_version:on-object-with-epoch-and-revision': 120000}}}
+
+# outcome-dependent floors: demanded only when the library under observation accepts very large epochs at all
+BIG_OBJECT_FLOORS = {'quick': {'bigepoch:assign-on-big-object': 5900, 'late:full_version:on-big-epoch-object': 1800,
+                               'bigepoch:assign:debian_version': 520, 'bigepoch:assign:debian_revision': 340,
+                               'bigepoch:assign:upstream_version': 860},
+                     'thorough': {'bigepoch:assign-on-big-object': 300000, 'late:full_version:on-big-epoch-object': 94000,
+                                  'bigepoch:assign:debian_version': 27000, 'bigepoch:assign:debian_revision': 18000,
+                                  'bigepoch:assign:upstream_version': 44000}}
+
+
+def conclusive(tier, counters, monitor_evals, extra):
+    acc = counters.get('construct:big-epoch/accepted', 0)
+    rej = counters.get('construct:big-epoch/rejected', 0)
+    if acc + rej == 0:
+        return 'no constructor string with a very large epoch was judged'
+    if acc < rej:
+        return None          # the library refuses (most) very large epochs: no object can carry one
+    low = ['%s = %d, floor %d' % (k, counters.get(k, 0), f) for k, f in sorted(BIG_OBJECT_FLOORS.get(tier, {}).items())
+           if counters.get(k, 0) < f]
+    if low:
+        return 'assignments to objects that carry a very large epoch under-exercised: ' + '; '.join(low)
+    return None
+
 
 ATTRS = ('full_version', 'epoch', 'upstream_version', 'debian_revision', 'debian_version')
 UNSET = '<unset>'
@@ -448,6 +510,126 @@ def make_pool(r):
     return pool
 
 
+# -- very large epochs, and full_version values that are refused only after the character/shape check -----------------
+BIG_EPOCHS = ['2147483647', '2147483648', '2147483649', '4294967295', '4294967296', '4294967297',
+              '9223372036854775807', '9223372036854775808', '18446744073709551615', '18446744073709551616',
+              '12345678901234567890', '99999999999999999999', '10000000000000000000',
+              '1234567890123456789012345678901234567890', '9999999999999999999999999999999999999999',
+              '1' + '0' * 39, '00000000000000000001', '0' * 39 + '7', '0' * 20, '02147483648', '2147483650', '3000000000']
+BIG_EPOCH_INTS = [2147483647, 2147483648, 4294967295, 4294967296, 2 ** 63 - 1, 2 ** 63, 2 ** 64, 12345678901234567890,
+                  10 ** 39, 1234567890123456789012345678901234567890]
+# constructor templates around a large epoch E (valid, unspecified and invalid surroundings)
+BIG_TEMPLATES = ['E:1', 'E:1.0-1', 'E:a', 'E:1:2', 'E:1-2-3', 'E:1.0~rc1+dfsg-0ubuntu1', 'E:0', 'E:1-a:b', 'E:', 'E',
+                 'E-1', 'E:-1', 'E:1-', 'E:1-1:', 'aE:1', 'E:1\n', 'E\n:1', 'E :1', ' E:1', 'E٣:1', '٣E:1', '-E:1', '+E:1',
+                 '1:E', '1:1-E', '1:E:1', 'E:E:E-E', ':E', 'E::1', 'E:1_', 'E.0:1', 'Ea:1', 'E:E', '0:E-E', 'E:1.0-1\n']
+# text before the first colon that is NOT an epoch (the string has no epoch, so a colon is not allowed anywhere)
+LATE_HEADS = ['a', 'rc', '1a', 'a1', '1.0', '1.', '.1', '~', '+', '.', '', '1+', '1~', 'A', 'z9', '1-1', '-1', '1-', '-',
+              '2.3~rc1', '0a', '+1', '1.0-2']
+# text after the last hyphen that is NOT a revision (it contains a colon)
+LATE_TAILS = [':', 'a:b', '1:1', ':1', '1:', '1:2:3', '0:0', 'a:', ':a', '1.0:1', '~:~', '1:1.0~rc1']
+
+
+def gen_big_epoch(r):
+    if r.random() < 0.75:
+        return r.choice(BIG_EPOCHS)
+    n = r.choice([10, 10, 11, 12, 19, 20, 20, 21, 39, 40, 40, 41, 64, 100])
+    ep = r.choice('123456789') + ''.join(r.choice('0123456789') for _ in range(n - 1))
+    if n == 10 and int(ep) <= INT_MAX:
+        ep = '3' + ep[1:]
+    return ep
+
+
+def gen_big_valid(r):
+    """A syntactically valid version whose epoch is very large (classify == 'big-epoch')."""
+    while True:
+        s = gen_valid(r, maxparts=3) if r.random() < 0.7 else gen_removal_init(r)
+        if ':' in s and s.split(':', 1)[0].isdigit():
+            s = s.split(':', 1)[1]
+        s = gen_big_epoch(r) + ':' + s
+        if classify(s) == 'big-epoch':
+            return s
+
+
+def gen_late_refused(r):
+    """A string over the version alphabet only (so a character-class / shape check lets it through) that is nevertheless
+    MUST-REJECT: a colon without a numeric epoch in front of it, a colon after the last hyphen, nothing after the
+    epoch.  Sometimes with a very large epoch."""
+    while True:
+        k = r.random()
+        up = ''.join(r.choice(UP_ATOMS) for _ in range(r.randint(1, 3)))
+        rev = ''.join(r.choice(REV_ATOMS) for _ in range(r.choice([1, 1, 2])))
+        ep = gen_big_epoch(r) if r.random() < 0.2 else r.choice(['0', '1', '2', '3', '7', '12', '007', '99'])
+        if k < 0.40:
+            # no numeric epoch, but a colon
+            s = r.choice(LATE_HEADS) + ':' + up
+            if r.random() < 0.3:
+                s += ':' + r.choice(UP_ATOMS)
+            if r.random() < 0.6:
+                s += '-' + rev
+        elif k < 0.80:
+            # epoch, and a colon after the last hyphen
+            s = ep + ':' + up + ('-' + r.choice(HYPHEN_TAILS) if r.random() < 0.3 else '') + '-' + r.choice(LATE_TAILS)
+        elif k < 0.90:
+            # no epoch at all and a colon after the last hyphen
+            s = up + '-' + rev + '-' + r.choice(LATE_TAILS)
+        else:
+            s = ep + ':'
+        if dpkgver.classify(s) == 'reject' and all(ch in dpkgver.UPSTREAM_CHARS for ch in s):
+            return s
+
+
+def _atomic_op(r):
+    """Assignments aimed at atomicity: values refused late, very large epochs in every position."""
+    k = r.random()
+    if k < 0.30:
+        return ['full_version', gen_late_refused(r)]
+    if k < 0.45:
+        return ['full_version', gen_big_valid(r) if r.random() < 0.8 else
+                r.choice(BIG_TEMPLATES).replace('E', gen_big_epoch(r))]
+    if k < 0.62:
+        return ['epoch', gen_big_epoch(r) if r.random() < 0.7 else r.choice(BIG_EPOCH_INTS)]
+    if k < 0.70:
+        # re-splitting upstream values: on an object without epoch the head becomes a very large epoch
+        return ['upstream_version', r.choice([gen_big_epoch(r) + ':' + r.choice(UP_ATOMS), gen_big_epoch(r),
+                                              gen_big_epoch(r) + ':1-2', gen_big_epoch(r) + ':' + r.choice(LATE_HEADS) + ':1',
+                                              int(gen_big_epoch(r))])]
+    if k < 0.86:
+        # other components (valid and invalid values) - matters on an object that carries a very large epoch
+        attr = r.choice(['debian_revision', 'debian_version', 'debian_version', 'upstream_version'])
+        if attr == 'upstream_version':
+            return [attr, r.choice(UPSTREAM_VALUES)]
+        return [attr, r.choice(REVISION_VALUES + ['2147483648', '99999999999999999999', 2 ** 63, '4294967296:1',
+                                                  '1-18446744073709551616'])]
+    if k < 0.92:
+        return ['epoch', r.choice([None, '0', '1', 5, '', 'a', '1:', '-1', ' '])]
+    return _random_op(r)
+
+
+def gen_atomic_history(r):
+    k = r.random()
+    if k < 0.40:
+        init = gen_big_valid(r)
+    elif k < 0.85:
+        # epoch and revision both set, so that a partly committed full_version is visible in every component
+        while True:
+            init = recompose(r.choice(['0', '1', '2', '5', '12', '007', '2147483647']),
+                             ''.join(r.choice(UP_ATOMS) for _ in range(r.randint(1, 3))),
+                             ''.join(r.choice(REV_ATOMS) for _ in range(r.choice([1, 1, 2]))))
+            if classify(init) == 'accept':
+                break
+    else:
+        init = gen_valid(r, maxparts=3)
+    ops = [_atomic_op(r) for _ in range(r.randint(1, 6))]
+    cls = 'BaseVersion' if r.random() < 0.2 else 'Version'
+    if r.random() < 0.3:
+        ops.insert(r.randrange(len(ops)), ['@copy', {'cls': r.choice(['Version', 'BaseVersion', cls]),
+                                                     'mutate': r.choice(['copy', 'original'])}])
+    if len(ops) > 1 and r.random() < 0.2:
+        ops.insert(r.randrange(1, len(ops)), ['@fresh', {'adopt': r.random() < 0.7}])
+    ops.append(['@fresh', {'adopt': False}])
+    return {'kind': 'hist', 'init': init, 'ops': ops, 'cls': cls, 'src': 'atomic'}
+
+
 def _random_op(r):
     attr = r.choice(['epoch', 'epoch', 'upstream_version', 'upstream_version', 'debian_revision',
                      'debian_revision', 'debian_version', 'full_version'])
@@ -513,8 +695,12 @@ def cases(ctx):
     ctx.extra['pool_strings_all_shards'] = len(pool)
     rh = ctx.rng('histories')
     n_hist = ctx.size(HISTORIES['quick'], HISTORIES['thorough'])
+    ra = ctx.rng('atomic')
+    n_atomic = ctx.size(ATOMIC_HISTORIES['quick'], ATOMIC_HISTORIES['thorough'])
     for _ in range(n_hist // 8):
         yield gen_history(rh, pool)
+    for _ in range(n_atomic // 8):
+        yield gen_atomic_history(ra)
     i = 0
     # the enumeration index is skewed by i // 14 so that a shard does not receive only the strings that end in one
     # particular symbol (14 symbols, 14 thorough shards)
@@ -540,11 +726,32 @@ def cases(ctx):
             if ctx.mine(i + i // 14):
                 yield {'kind': 'str', 's': t % ch, 'src': 'enum-foreign'}
             i += 1
+    # very large epochs: every listed epoch in every template (valid, unspecified and invalid surroundings)
+    if ctx.shard == 0:
+        ctx.extra['exhaustive_subspaces'].append(
+            'constructor: %d very large epochs (2**31-1 .. 40 digits, zero-padded) x %d templates'
+            % (len(BIG_EPOCHS), len(BIG_TEMPLATES)))
+    for ep in BIG_EPOCHS:
+        for t in BIG_TEMPLATES:
+            if ctx.mine(i + i // 14):
+                yield {'kind': 'str', 's': t.replace('E', ep), 'src': 'enum-big-epoch'}
+            i += 1
     r = ctx.rng('strings')
     for _ in range(ctx.size(RANDOM_STRINGS['quick'], RANDOM_STRINGS['thorough'])):
         yield {'kind': 'str', 's': gen_string(r), 'src': 'random'}
+    r = ctx.rng('big-strings')
+    for _ in range(ctx.size(BIG_RANDOM_STRINGS['quick'], BIG_RANDOM_STRINGS['thorough'])):
+        s = gen_big_valid(r)
+        k = r.random()
+        if k > 0.5:
+            s = mutate(r, s)
+        if k > 0.85:
+            s = mutate(r, s)
+        yield {'kind': 'str', 's': s, 'src': 'random-big-epoch'}
     for _ in range(n_hist - n_hist // 8):
         yield gen_history(rh, pool)
+    for _ in range(n_atomic - n_atomic // 8):
+        yield gen_atomic_history(ra)
     if ctx.tier == 'thorough' and ctx.shard == 0 and shutil.which('dpkg'):
         r = ctx.rng('dpkg')
         strings = []
@@ -579,7 +786,7 @@ def check_construct(ctx, s, clsname='Version', count=True):
     """Push one string through the live constructor; returns [(key, msg)]."""
     from debian import debian_support as ds
     cls = getattr(ds, clsname)
-    verdict = dpkgver.classify(s)
+    verdict = classify(s)
     out = []
     _drain_k7()
     try:
@@ -594,8 +801,12 @@ def check_construct(ctx, s, clsname='Version', count=True):
     if count:
         ctx.mon('M.construct')
         ctx.count('construct:%s/%s' % (verdict, {True: 'accepted', False: 'rejected', None: 'error'}[accepted]))
+        if has_big_epoch(s):
+            ctx.count('bigepoch:construct')          # whatever the verdict and whatever the library did
     if accepted is None or verdict == 'unspecified':
         return out + k7
+    if verdict == 'big-epoch' and not accepted:
+        return out + k7      # refusing an epoch > INT_MAX is not judged
     if verdict == 'reject':
         if accepted:
             for key in accept_mechanisms(s):
@@ -606,7 +817,7 @@ def check_construct(ctx, s, clsname='Version', count=True):
                 ctx.count('K7:fired-coincident-with-boundary-finding', len(k7))
             return out       # K7 failures here are consequences of the same acceptance slip
         return out + k7
-    # verdict == 'accept'
+    # verdict == 'accept', or 'big-epoch' and the library took it: lossless + Policy decomposition are demanded
     if not accepted:
         out.append(('rejects-valid-version', '%s(%r) raised ValueError but the string is a valid Debian version '
                                              '(Policy split %r)' % (clsname, s, dpkgver.split(s))))
@@ -685,9 +896,24 @@ def play_history(ctx, case, count=True):
     cls = getattr(ds, clsname)
     init, ops = case['init'], case['ops']
     out = []
-    if dpkgver.classify(init) != 'accept':
+    init_verdict = classify(init)
+    if init_verdict not in VALID:
         # only reachable through a hand-written replay file
         return [('harness/bad-history', 'initial version %r is not a valid version' % (init,), -1)]
+    if init_verdict == 'big-epoch':
+        if count:
+            ctx.count('bigepoch:hist-init')
+        try:
+            cls(init)
+        except ValueError:
+            # refusing an epoch > INT_MAX is not judged: there is no object to assign to
+            _drain_k7()
+            if count:
+                ctx.count('bigepoch:hist-init-refused')
+            return []
+        except Exception:
+            pass                 # reported by check_construct below
+        _drain_k7()
     pre = check_construct(ctx, init, clsname, count=False)
     if pre:
         if case.get('pool') and (clsname, init) in SENTINELS:
@@ -721,7 +947,8 @@ def play_history(ctx, case, count=True):
         if attr == '@copy':
             opt = value or {}
             cur = _public(v)
-            if dpkgver.classify(cur[0]) != 'accept':
+            cur_verdict = classify(cur[0])
+            if cur_verdict not in VALID:
                 if count:
                     ctx.count('copy:skipped/current-string-unspecified')
                 continue
@@ -729,6 +956,16 @@ def play_history(ctx, case, count=True):
             try:
                 c = getattr(ds, ccls)(v)
             except Exception as exc:
+                if cur_verdict == 'big-epoch' and isinstance(exc, ValueError):
+                    # a constructor may refuse an epoch > INT_MAX (not judged), but nothing may have changed
+                    _drain_k7()
+                    if count:
+                        ctx.count('copy:skipped/big-epoch-refused')
+                    if _public(v) != cur:
+                        return out + [('other-object-changed/original-by-copy-construction', '%s(<%s %r>) raised '
+                                       'ValueError and changed its argument: %r -> %r'
+                                       % (ccls, clsname, cur[0], cur, _public(v)), step)]
+                    continue
                 return out + [('copy-construction-raises', '%s(<%s %r>) raised %s: %s'
                                % (ccls, clsname, cur[0], type(exc).__name__, exc), step)]
             k7 = _drain_k7()
@@ -761,12 +998,14 @@ def play_history(ctx, case, count=True):
                 if s not in strings and len(strings) < FRESH_STRINGS:
                     strings.append(s)
             for s in strings:
-                verdict = dpkgver.classify(s)
+                verdict = classify(s)
                 if count:
                     ctx.mon('M.fresh')
                     ctx.count('fresh:%s' % ('initial-string' + ('-after-change' if n_ok else '') if s == init else
                                             'current-string' if s == cur[0] else 'earlier-%sed-string' % verdict
-                                            if verdict != 'unspecified' else 'earlier-unspecified-string'))
+                                            if verdict in ('accept', 'reject') else 'earlier-%s-string' % verdict))
+                    if has_big_epoch(s):
+                        ctx.count('bigepoch:fresh')
                 for k, m in check_construct(ctx, s, clsname, count=False):
                     out.append(('history-dependent-construction/' + k,
                                 'after %d assignment(s) (%d succeeded) on objects built from %r: %s' % (n_ok + n_raised, n_ok, init, m),
@@ -780,8 +1019,14 @@ def play_history(ctx, case, count=True):
             leak = _check_watched(ctx, watched, 'constructing %s from %r' % (clsname, strings), step, count, False)
             if leak:
                 return out + leak
-            if opt.get('adopt') and dpkgver.classify(cur[0]) == 'accept':
-                n = cls(cur[0])
+            if opt.get('adopt') and classify(cur[0]) in VALID:
+                try:
+                    n = cls(cur[0])
+                except ValueError:
+                    _drain_k7()
+                    if classify(cur[0]) == 'big-epoch':
+                        continue          # refusing an epoch > INT_MAX is not judged
+                    raise
                 _drain_k7()
                 if _public(n) != _expected_public(cur[0]):
                     return out + [('repeated-construction-differs', '%s(%r) constructed again: observables %r, Policy '
@@ -814,6 +1059,13 @@ def play_history(ctx, case, count=True):
                 cands = [recompose(e, u, None), recompose(e, u, '')]
             else:
                 cands = [recompose(e, u, r)]
+        # classes of the gap closed in round 4 (decided from the model and the value only, never from the outcome)
+        big_touch = any(has_big_epoch(c) for c in cands)          # the recomposition carries an epoch > INT_MAX
+        obj_big = is_big_epoch_value(model[0])                    # the object carries one already
+        late = None
+        if attr == 'full_version' and isinstance(value, str) and value != '' and \
+                all(ch in dpkgver.UPSTREAM_CHARS for ch in value) and dpkgver.classify(value) == 'reject':
+            late = reject_reason(value)      # only version characters, refused for its colons / empty upstream
         raised = None
         try:
             setattr(v, attr, value)
@@ -831,6 +1083,19 @@ def play_history(ctx, case, count=True):
             ctx.count('assign:raised' if raised else 'assign:ok')
             if removal:
                 ctx.count('remove:%s:%s' % (removal, 'raised' if raised else 'ok'))
+            if big_touch:
+                ctx.count('bigepoch:assign:%s' % attr)
+                ctx.count('bigepoch:assign:%s:%s' % (attr, 'raised' if raised else 'ok'))
+            if obj_big:
+                ctx.count('bigepoch:assign-on-big-object')
+                ctx.count('bigepoch:assign-on-big-object:%s' % ('raised' if raised else 'ok'))
+            if late:
+                ctx.count('late:full_version:%s' % late)
+                ctx.count('late:full_version:%s' % ('raised' if raised else 'ok'))
+                if model[0] is not None and model[2] is not None:
+                    ctx.count('late:full_version:on-object-with-epoch-and-revision')
+                if obj_big:
+                    ctx.count('late:full_version:on-big-epoch-object')
         leak = _check_watched(ctx, watched, '%s=%r on another object (%r) %s' % (attr, value, before[0], 'raised ValueError'
                               if raised else 'succeeded'), step, count, after != before)
         if leak:
@@ -840,8 +1105,9 @@ def play_history(ctx, case, count=True):
             if count:
                 ctx.mon('M.rollback')
                 if any(dpkgver.classify(c) == 'accept' for c in cands):
-                    ctx.count('assign:raised-although-recomposition-valid')   # tolerated, informational
-            seen.extend(c for c in cands if dpkgver.classify(c) == 'reject' and c not in seen)
+                    ctx.count('assign:raised-although-recomposition-%s'       # tolerated, informational
+                              % ('valid' if not big_touch else 'valid-with-big-epoch'))
+            seen.extend(c for c in cands if classify(c) == 'reject' and c not in seen)
             if after != before:
                 out.append(('failed-assignment-changes-object',
                             '%s=%r on %r raised ValueError but (str, full_version, epoch, upstream_version, '
@@ -861,7 +1127,7 @@ def play_history(ctx, case, count=True):
                         '%s=%r on %r (components %r) succeeded with str()=%r; recomposition with the new component is %s'
                         % (attr, value, before[0], model, sv, ' or '.join(repr(c) for c in cands)), step))
             return out
-        verdict = dpkgver.classify(sv)
+        verdict = classify(sv)
         if count:
             ctx.count('assign:ok/%s' % verdict)
         if verdict == 'reject':
@@ -877,7 +1143,7 @@ def play_history(ctx, case, count=True):
             return out
         if sv not in seen:
             seen.append(sv)
-        if verdict == 'accept':
+        if verdict in VALID:
             want = dpkgver.split(sv)
             if (ep, up, rev) != want or rev2 != rev:
                 out.append(('assignment-components-not-rederived',
@@ -943,7 +1209,7 @@ def _shrink_history(ctx, case, key, step):
                 pass
         cur = str(v)
         _drain_k7()
-        if dpkgver.classify(cur) == 'accept':
+        if classify(cur) in VALID:
             cand = dict(case, init=cur, ops=[case['ops'][step]])
             cand.pop('pool', None)
             if _reproduces(ctx, cand, key):
